@@ -271,6 +271,18 @@ struct F14 { #[scylla(flatten)] q: Q14, z: i32 } }
 fam! { #[derive(SerializeRow)] #[scylla(flavor = "enforce_order", skip_name_checks)]
 struct F15 { a: i32, #[scylla(flatten)] q: Q8 } }
 
+// skip_name_checks mixes through two levels of ordered flatten
+fam! { #[derive(SerializeRow)] #[scylla(flavor = "enforce_order", skip_name_checks)]
+struct Q16 { b: String, #[scylla(flatten)] r: Q13r } }
+fam! { #[derive(SerializeRow)] #[scylla(flavor = "enforce_order")]
+struct F16 { a: i32, #[scylla(flatten)] q: Q16 } }
+fam! { #[derive(SerializeRow)] #[scylla(flavor = "enforce_order", skip_name_checks)]
+struct Q17r { c: i32, d: String } }
+fam! { #[derive(SerializeRow)] #[scylla(flavor = "enforce_order")]
+struct Q17 { b: String, #[scylla(flatten)] r: Q17r } }
+fam! { #[derive(SerializeRow)] #[scylla(flavor = "enforce_order", skip_name_checks)]
+struct F17 { a: i32, #[scylla(flatten)] q: Q17 } }
+
 // an empty struct, flattened (the shape of finding F16, fixed in /repo fb90e43)
 fam! { #[derive(SerializeRow)]
 struct E0 {} }
@@ -278,6 +290,241 @@ fam! { #[derive(SerializeRow)]
 struct F11 { #[scylla(flatten)] e: E0, x: i32 } }
 fam! { #[derive(SerializeRow)]
 struct F12 { #[scylla(flatten)] e: E0, #[scylla(flatten)] q: Q2b } }
+
+// ------------------------------------------------------------------ generics, lifetimes, crate path
+// The generated ALGORITHM is the same as for the plain structs (the macros only add lifetime and
+// trait bounds / another path prefix); these four tie that claim.  Instantiated as <'static, i32>;
+// the borrowed strings and frames are leaked (a few hundred cases only).
+impl Fam for &'static str {
+    fn build(it: &mut std::slice::Iter<'_, Cell>) -> Result<Self, String> {
+        String::build(it).map(|s| &*Box::leak(s.into_boxed_str()))
+    }
+    fn dump(&self, out: &mut Vec<Cell>) {
+        out.push(Some(self.as_bytes().to_vec()));
+    }
+}
+// The reading derives do not compile for a struct with a type parameter (see docs/C16.md), so the
+// two structs with a type parameter are write-only.
+// fam! { (written out by hand: the macro has no generics)
+#[derive(SerializeValue, Debug, Clone, PartialEq)]
+struct G01<'a, T: SerializeValue> { #[scylla(rename = "x")] a: &'a str, b: T, #[scylla(allow_missing)] c: Option<i32> }
+impl Fam for G01<'static, i32> {
+    fn build(it: &mut std::slice::Iter<'_, Cell>) -> Result<Self, String> {
+        Ok(G01 { a: Fam::build(it)?, b: Fam::build(it)?, c: Fam::build(it)? })
+    }
+    fn dump(&self, out: &mut Vec<Cell>) {
+        self.a.dump(out);
+        self.b.dump(out);
+        self.c.dump(out);
+    }
+}
+// fam! { (written out by hand: lifetime parameter)
+#[derive(SerializeValue, DeserializeValue, Debug, Clone, PartialEq)]
+struct L01<'a> { #[scylla(rename = "x")] a: &'a str, b: i32, #[scylla(allow_missing)] c: Option<i32> }
+impl Fam for L01<'static> {
+    fn build(it: &mut std::slice::Iter<'_, Cell>) -> Result<Self, String> {
+        Ok(L01 { a: Fam::build(it)?, b: Fam::build(it)?, c: Fam::build(it)? })
+    }
+    fn dump(&self, out: &mut Vec<Cell>) {
+        self.a.dump(out);
+        self.b.dump(out);
+        self.c.dump(out);
+    }
+}
+// fam! { (written out by hand: the macro has no generics)
+#[derive(SerializeRow, Debug, Clone, PartialEq)]
+struct GR1<'a, T: SerializeValue> { a: &'a str, #[scylla(rename = "y")] b: T }
+impl Fam for GR1<'static, i32> {
+    fn build(it: &mut std::slice::Iter<'_, Cell>) -> Result<Self, String> {
+        Ok(GR1 { a: Fam::build(it)?, b: Fam::build(it)? })
+    }
+    fn dump(&self, out: &mut Vec<Cell>) {
+        self.a.dump(out);
+        self.b.dump(out);
+    }
+}
+// fam! { (written out by hand: lifetime parameter)
+#[derive(SerializeRow, DeserializeRow, Debug, Clone, PartialEq)]
+struct LR1<'a> { a: &'a str, #[scylla(default_when_null)] b: i32 }
+impl Fam for LR1<'static> {
+    fn build(it: &mut std::slice::Iter<'_, Cell>) -> Result<Self, String> {
+        Ok(LR1 { a: Fam::build(it)?, b: Fam::build(it)? })
+    }
+    fn dump(&self, out: &mut Vec<Cell>) {
+        self.a.dump(out);
+        self.b.dump(out);
+    }
+}
+fam! { #[derive(SerializeValue, DeserializeValue)] #[scylla(crate = scylla_cql_core, flavor = "enforce_order")]
+struct K01 { a: i32, #[scylla(rename = "x", allow_missing)] b: String } }
+fam! { #[derive(SerializeRow, DeserializeRow)] #[scylla(crate = scylla_cql_core)]
+struct KR1 { #[scylla(rename = "x")] a: i32, #[scylla(skip)] s: i32, b: Option<String> } }
+
+/// type_check + deserialize for a struct that borrows from the frame: metadata and frame are leaked
+/// so that they outlive the ('static) value.
+fn de_value_l01(typ: &ColumnType<'static>, framed: &[u8]) -> String {
+    let typ: &'static ColumnType<'static> = Box::leak(Box::new(typ.clone()));
+    let bytes: &'static bytes::Bytes = Box::leak(Box::new(bytes::Bytes::copy_from_slice(framed)));
+    let r = catch(AssertUnwindSafe(|| -> String {
+        if let Err(e) = <L01<'static> as DeserializeValue<'static, 'static>>::type_check(typ) {
+            return format!("tck {}", tck_err_str(&e));
+        }
+        let mut fs = FrameSlice::new(bytes);
+        let v = match fs.read_cql_bytes() {
+            Ok(v) => v,
+            Err(_) => return "des RawFrame".into(),
+        };
+        match <L01<'static> as DeserializeValue<'static, 'static>>::deserialize(typ, v) {
+            Ok(t) => {
+                let mut out = vec![];
+                t.dump(&mut out);
+                format!("ok {}", cells_str(&out))
+            }
+            Err(e) => format!("des {}", des_err_str(&e)),
+        }
+    }));
+    r.unwrap_or_else(|_| "panic".into())
+}
+fn run_sv_l01(vals: &[Cell], typ: &ColumnType<'static>) -> String {
+    match ser_value::<L01<'static>>(vals, typ) {
+        Err(s) => s,
+        Ok(b) => format!("ok {} rt {}", hex_bytes(&b), de_value_l01(typ, &b)),
+    }
+}
+fn de_row_lr1(specs: &[ColumnSpec<'static>], framed: &[u8]) -> String {
+    let specs: &'static [ColumnSpec<'static>] = Box::leak(specs.to_vec().into_boxed_slice());
+    let bytes: &'static bytes::Bytes = Box::leak(Box::new(bytes::Bytes::copy_from_slice(framed)));
+    let r = catch(AssertUnwindSafe(|| -> String {
+        if let Err(e) = <LR1<'static> as DeserializeRow<'static, 'static>>::type_check(specs) {
+            return format!("tck {}", tck_err_str(&e));
+        }
+        let it = ColumnIterator::new(specs, FrameSlice::new(bytes));
+        match <LR1<'static> as DeserializeRow<'static, 'static>>::deserialize(it) {
+            Ok(t) => {
+                let mut out = vec![];
+                t.dump(&mut out);
+                format!("ok {}", cells_str(&out))
+            }
+            Err(e) => format!("des {}", des_err_str(&e)),
+        }
+    }));
+    r.unwrap_or_else(|_| "panic".into())
+}
+fn run_sr_lr1(vals: &[Cell], specs: &[ColumnSpec<'static>]) -> String {
+    match ser_row::<LR1<'static>>(vals, specs) {
+        Err(s) => s,
+        Ok(b) => format!("ok {} rt {}", hex_bytes(&b), de_row_lr1(specs, &b)),
+    }
+}
+
+// ------------------------------------------------------------------ nested derived structs (kind NV)
+// Field types that are themselves derived structs: UDT in UDT, Option<Struct>, Vec<Struct>, a derived
+// UDT struct as a column of a derived row, an ordered parent with a by-name child.  There is no Coq
+// model of the nesting (docs/C16.md, Residual); these cases are judged by the property itself: for a
+// valid DB type (any order of the outer and of the inner fields, extra fields, the allow_missing
+// inner field absent) serialization must succeed and type_check + deserialize of the produced bytes
+// must give the value back.
+fam! { #[derive(SerializeValue, DeserializeValue)]
+struct In1 { x: i32, y: Option<String>, #[scylla(allow_missing)] z: Option<i32> } }
+impl Fam for Option<In1> {
+    fn build(it: &mut std::slice::Iter<'_, Cell>) -> Result<Self, String> {
+        match it.next() {
+            Some(None) => Ok(None),
+            Some(Some(_)) => In1::build(it).map(Some),
+            None => Err("missing Option marker".into()),
+        }
+    }
+    fn dump(&self, out: &mut Vec<Cell>) {
+        match self {
+            None => out.push(None),
+            Some(v) => {
+                out.push(Some(vec![]));
+                v.dump(out);
+            }
+        }
+    }
+}
+impl Fam for Vec<In1> {
+    fn build(it: &mut std::slice::Iter<'_, Cell>) -> Result<Self, String> {
+        let n = match it.next() {
+            Some(Some(b)) if b.len() == 1 => b[0] as usize,
+            _ => return Err("missing Vec count".into()),
+        };
+        (0..n).map(|_| In1::build(it)).collect()
+    }
+    fn dump(&self, out: &mut Vec<Cell>) {
+        out.push(Some(vec![self.len() as u8]));
+        for v in self {
+            v.dump(out);
+        }
+    }
+}
+fam! { #[derive(SerializeValue, DeserializeValue)]
+struct N01 { a: i32, #[scylla(rename = "in")] inner: In1, c: String } }
+fam! { #[derive(SerializeValue, DeserializeValue)]
+struct N02 { a: i32, o: Option<In1> } }
+fam! { #[derive(SerializeValue, DeserializeValue)]
+struct N03 { a: i32, v: Vec<In1> } }
+fam! { #[derive(SerializeValue, DeserializeValue)] #[scylla(flavor = "enforce_order")]
+struct N04 { a: i32, inner: In1 } }
+fam! { #[derive(SerializeRow, DeserializeRow)]
+struct NR1 { k: i32, u: In1 } }
+
+fn permute<T: Clone>(xs: &[T], perm: &str) -> Option<Vec<T>> {
+    let idx: Vec<usize> = perm.chars().filter_map(|c| c.to_digit(10).map(|d| d as usize)).collect();
+    let mut seen = vec![false; xs.len()];
+    if idx.len() != xs.len() || idx.iter().any(|&i| i >= xs.len() || std::mem::replace(&mut seen[i], true)) {
+        return None;
+    }
+    Some(idx.iter().map(|&i| xs[i].clone()).collect())
+}
+/// the inner UDT type: fields x, y, z in the order `perm`; flag 'm' drops z, 'f' adds a foreign field
+fn inner_type(perm: &str, flags: &str) -> Option<ColumnType<'static>> {
+    let base = vec![("x".to_string(), native("i")), ("y".to_string(), native("t")), ("z".to_string(), native("i"))];
+    let mut fs = permute(&base, perm)?;
+    if flags.contains('m') {
+        fs.retain(|(n, _)| n != "z");
+    }
+    if flags.contains('f') {
+        fs.insert(1.min(fs.len()), ("q9".to_string(), native("b")));
+    }
+    Some(udt(fs))
+}
+fn run_nv(id: &str, operm: &str, iperm: &str, flags: &str, vals: &[Cell]) -> String {
+    let Some(inner) = inner_type(iperm, flags) else { return "error bad-inner-perm".into() };
+    let list = |t: ColumnType<'static>| ColumnType::Collection {
+        frozen: false,
+        typ: scylla_cql_core::frame::response::result::CollectionType::List(Box::new(t)),
+    };
+    let (a, c) = (("a".to_string(), native("i")), ("c".to_string(), native("t")));
+    let outer: Vec<(String, ColumnType<'static>)> = match id {
+        "N01" => vec![a, ("in".to_string(), inner), c],
+        "N02" => vec![a, ("o".to_string(), inner)],
+        "N03" => vec![a, ("v".to_string(), list(inner))],
+        "N04" => vec![a, ("inner".to_string(), inner)],
+        "NR1" => vec![("k".to_string(), native("i")), ("u".to_string(), inner)],
+        _ => return "error unknown-struct".into(),
+    };
+    let Some(mut outer) = permute(&outer, operm) else { return "error bad-outer-perm".into() };
+    if flags.contains('e') {
+        outer.insert(0, ("w8".to_string(), native("t")));
+    }
+    if flags.contains('E') {
+        outer.push(("w8".to_string(), native("t")));
+    }
+    if id == "NR1" {
+        let specs: Vec<ColumnSpec<'static>> =
+            outer.into_iter().map(|(n, t)| ColumnSpec::owned(n, t, TableSpec::owned("ks".into(), "tbl".into()))).collect();
+        return run_sr::<NR1>(vals, &specs);
+    }
+    let typ = udt(outer);
+    match id {
+        "N01" => run_sv::<N01>(vals, &typ),
+        "N02" => run_sv::<N02>(vals, &typ),
+        "N03" => run_sv::<N03>(vals, &typ),
+        _ => run_sv::<N04>(vals, &typ),
+    }
+}
 
 // ------------------------------------------------------------------ errors -> class strings
 
@@ -535,6 +782,12 @@ where
         Ok(b) => format!("ok {} rt {}", hex_bytes(&b), de_row::<T>(specs, &b)),
     }
 }
+fn run_sv_only<T: Fam + SerializeValue>(vals: &[Cell], typ: &ColumnType<'static>) -> String {
+    match ser_value::<T>(vals, typ) {
+        Err(s) => s,
+        Ok(b) => format!("ok {}", hex_bytes(&b)),
+    }
+}
 fn run_sr_only<T: Fam + SerializeRow>(vals: &[Cell], specs: &[ColumnSpec<'static>]) -> String {
     match ser_row::<T>(vals, specs) {
         Err(s) => s,
@@ -557,21 +810,23 @@ struct Entry {
     dv: Option<DvFn>,
     sr: Option<SrFn>,
     dr: Option<DrFn>,
+    /// serialization alone (for the PR bridge, which deserializes with differently obtained specs)
+    sr_split: Option<fn(&[Cell], &[ColumnSpec<'static>]) -> Result<Vec<u8>, String>>,
 }
 
 macro_rules! v_entry {
     ($t:ident, $d:expr) => {
-        Entry { id: stringify!($t), desc: $d, sv: Some(run_sv::<$t>), dv: Some(de_value::<$t>), sr: None, dr: None }
+        Entry { id: stringify!($t), desc: $d, sv: Some(run_sv::<$t>), dv: Some(de_value::<$t>), sr: None, dr: None, sr_split: None }
     };
 }
 macro_rules! r_entry {
     ($t:ident, $d:expr) => {
-        Entry { id: stringify!($t), desc: $d, sv: None, dv: None, sr: Some(run_sr::<$t>), dr: Some(de_row::<$t>) }
+        Entry { id: stringify!($t), desc: $d, sv: None, dv: None, sr: Some(run_sr::<$t>), dr: Some(de_row::<$t>), sr_split: Some(ser_row::<$t>) }
     };
 }
 macro_rules! f_entry {
     ($t:ident, $d:expr) => {
-        Entry { id: stringify!($t), desc: $d, sv: None, dv: None, sr: Some(run_sr_only::<$t>), dr: None }
+        Entry { id: stringify!($t), desc: $d, sv: None, dv: None, sr: Some(run_sr_only::<$t>), dr: None, sr_split: Some(ser_row::<$t>) }
     };
 }
 
@@ -640,6 +895,14 @@ fn registry() -> Vec<Entry> {
         f_entry!(F13, "o/a:i;q:{o/b:t;r:{o/c:i;d:t}}"),
         f_entry!(F14, "o/q:{o/u>w:i;s:t:s;v:t};z:i"),
         f_entry!(F15, "on/a:i;q:{on/b:t;c:I}"),
+        f_entry!(F16, "o/a:i;q:{on/b:t;r:{o/c:i;d:t}}"),
+        f_entry!(F17, "on/a:i;q:{o/b:t;r:{on/c:i;d:t}}"),
+        Entry { id: "G01", desc: "S/a>x:t;b:i;c:I:m", sv: Some(run_sv_only::<G01<'static, i32>>), dv: None, sr: None, dr: None, sr_split: None },
+        Entry { id: "L01", desc: "-/a>x:t;b:i;c:I:m", sv: Some(run_sv_l01), dv: Some(de_value_l01), sr: None, dr: None, sr_split: None },
+        Entry { id: "GR1", desc: "S/a:t;b>y:i", sv: None, dv: None, sr: Some(run_sr_only::<GR1<'static, i32>>), dr: None, sr_split: Some(ser_row::<GR1<'static, i32>>) },
+        Entry { id: "LR1", desc: "-/a:t;b:i:d", sv: None, dv: None, sr: Some(run_sr_lr1), dr: Some(de_row_lr1), sr_split: Some(ser_row::<LR1<'static>>) },
+        v_entry!(K01, "o/a:i;b>x:t:m"),
+        r_entry!(KR1, "-/a>x:i;s:i:s;b:T"),
     ]
 }
 
@@ -735,11 +998,18 @@ fn parse_shape(desc: &str) -> Shape {
 const SOURCE: &str = include_str!("c16.rs");
 
 fn derive_desc(name: &str) -> Result<String, String> {
-    let pat = format!("struct {name} {{");
-    let at = SOURCE.find(&pat).ok_or_else(|| format!("struct {name} not found"))?;
+    let at = [format!("struct {name} {{"), format!("struct {name}<")]
+        .iter()
+        .filter_map(|p| SOURCE.find(p.as_str()))
+        .min()
+        .ok_or_else(|| format!("struct {name} not found"))?;
     let head_start = SOURCE[..at].rfind("fam! {").ok_or("no fam! before struct")?;
     let head = &SOURCE[head_start..at];
     let mut flags = String::new();
+    let body_for_flags = &SOURCE[at..at + SOURCE[at..].find('}').unwrap_or(0)];
+    if !head.contains("Deserialize") && !body_for_flags.contains("flatten") {
+        flags.push('S'); // serialize-only struct (no round trip expected)
+    }
     if head.contains("flavor = \"enforce_order\"") {
         flags.push('o');
     }
@@ -752,7 +1022,9 @@ fn derive_desc(name: &str) -> Result<String, String> {
     if flags.is_empty() {
         flags.push('-');
     }
-    let body_start = at + pat.len();
+    // nested (flattened) structs are never marked serialize-only
+
+    let body_start = at + SOURCE[at..].find('{').ok_or("no struct body")? + 1;
     let body_end = body_start + SOURCE[body_start..].find('}').ok_or("unterminated struct")?;
     let body = &SOURCE[body_start..body_end];
     // split the fields at commas outside parentheses / brackets / angle brackets
@@ -816,11 +1088,20 @@ fn derive_desc(name: &str) -> Result<String, String> {
             "String" => "t".to_string(),
             "Option<i32>" => "I".to_string(),
             "Option<String>" => "T".to_string(),
+            "&'a str" => "t".to_string(),
+            "T" => "i".to_string(), // the generic parameter is instantiated with i32
             nested => {
                 if !flatten {
                     return Err(format!("nested struct field {id} without flatten"));
                 }
-                format!("{{{}}}", derive_desc(nested)?)
+                // a flattened struct is never marked serialize-only
+                let inner = derive_desc(nested)?;
+                let inner = match inner.strip_prefix('S') {
+                    Some(r) if r.starts_with('/') => format!("-{r}"),
+                    Some(r) => r.to_string(),
+                    None => inner,
+                };
+                format!("{{{inner}}}")
             }
         };
         let mut fd = format!("{name_part}:{ty_part}");
@@ -872,11 +1153,53 @@ fn specs(s: &str) -> Vec<ColumnSpec<'static>> {
         .collect()
 }
 
+/// Bridge (kind PR): the column specs are not built by hand but come out of the driver's own decoder:
+/// a RESULT/Prepared body is encoded by mocknode's independent encoder (bind columns = result
+/// columns = the case's column list, same table or two tables so that both the global-table-spec and
+/// the per-column form are produced), decoded by scylla_cql's `deserialize_with_features`, and the
+/// derived SerializeRow runs on `prepared_metadata.col_specs`, the derived DeserializeRow on
+/// `result_metadata.col_specs()`.
+fn decoded_specs(cols: &str) -> Result<(Vec<ColumnSpec<'static>>, Vec<ColumnSpec<'static>>), String> {
+    use vh::mocknode::types::body_result_prepared;
+    use vh::mocknode::{ColSpec, CqlType, PreparedSpec};
+    let cs: Vec<ColSpec> = if cols == "-" {
+        vec![]
+    } else {
+        cols.split(',')
+            .enumerate()
+            .map(|(i, e)| {
+                let (n, t) = e.split_once(':').unwrap();
+                let typ = match t {
+                    "i" => CqlType::Int,
+                    "t" => CqlType::Text,
+                    _ => CqlType::BigInt,
+                };
+                // columns named with an upper-case first letter live in another table: no global spec
+                let table = if n.chars().next().is_some_and(|c| c.is_ascii_uppercase()) && i > 0 { "tbl2" } else { "tbl" };
+                ColSpec::new("ks", table, n, typ)
+            })
+            .collect()
+    };
+    let spec = PreparedSpec { bind_columns: cs.clone(), result_columns: cs, ..Default::default() };
+    let body = body_result_prepared(&spec, &[7u8; 16], None, None);
+    let features = scylla_cql::frame::protocol_features::ProtocolFeatures::default();
+    match scylla_cql::frame::response::result::deserialize_with_features(bytes::Bytes::from(body), None, &features) {
+        Ok(scylla_cql::frame::response::result::Result::Prepared(p)) => {
+            Ok((p.prepared_metadata.col_specs.clone(), p.result_metadata.col_specs().to_vec()))
+        }
+        Ok(_) => Err("error bridge-not-prepared".into()),
+        Err(e) => Err(format!("error bridge-decode {}", format!("{e:?}").replace(' ', "_"))),
+    }
+}
+
 fn run_case(reg: &[Entry], case: &str) -> String {
     let f: Vec<&str> = case.split_whitespace().collect();
     if f.len() == 4 && f[0] == "XD" {
         let derived = derive_desc(f[1]).unwrap_or_else(|m| format!("error:{}", m.replace(' ', "_")));
         return if reg.iter().any(|e| e.id == f[1] && e.desc == derived && f[2] == e.desc && f[3] == derived) { "same".into() } else { "differ".into() };
+    }
+    if f.len() == 6 && f[0] == "NV" {
+        return run_nv(f[1], f[2], f[3], f[4], &parse_cells(f[5]));
     }
     if f.len() != 5 {
         return "error bad-case".into();
@@ -896,6 +1219,24 @@ fn run_case(reg: &[Entry], case: &str) -> String {
             }
             None => "error no-DeserializeValue".into(),
         },
+        "PR" => {
+            let (bind, result) = match decoded_specs(f[3]) {
+                Ok(x) => x,
+                Err(m) => return m,
+            };
+            let vals = parse_cells(f[4]);
+            match (e.sr_split, e.dr) {
+                (Some(ser), Some(de)) => match ser(&vals, &bind) {
+                    Err(s) => s,
+                    Ok(b) => format!("ok {} rt {}", hex_bytes(&b), de(&result, &b)),
+                },
+                (Some(ser), None) => match ser(&vals, &bind) {
+                    Err(s) => s,
+                    Ok(b) => format!("ok {}", hex_bytes(&b)),
+                },
+                _ => "error no-SerializeRow".into(),
+            }
+        }
         "SR" => match e.sr {
             Some(g) => g(&parse_cells(f[4]), &specs(f[3])),
             None => "error no-SerializeRow".into(),
@@ -1030,6 +1371,21 @@ impl Gen<'_> {
         let dbs = db_str(db);
         let vals = gen_vals(&mut self.r, sh);
         self.emit(format!("{} {} {} {} {}", if is_v { "SV" } else { "SR" }, e.id, e.desc, dbs, cells_str(&vals)));
+        if !is_v && self.r.chance(1, 6) {
+            // the same case on column specs decoded by the driver from an encoded PREPARED response;
+            // sometimes one column is put into another table (upper-case first letter, so it is an
+            // unknown name for the struct) to force the non-global table spec form
+            let mut db2 = db.to_vec();
+            if db2.len() >= 2 && self.r.chance(1, 5) {
+                let n = self.extra_name(sh, &db2);
+                let mut c = n.chars();
+                let up: String = c.next().map(|f| f.to_ascii_uppercase().to_string() + c.as_str()).unwrap_or_default();
+                if !db2.iter().any(|(m, _)| *m == up) && !sh.bound.iter().any(|(m, _)| *m == up) {
+                    db2.push((up, "i".to_string()));
+                }
+            }
+            self.emit(format!("PR {} {} {} {}", e.id, e.desc, db_str(&db2), cells_str(&vals)));
+        }
         if !(if is_v { e.dv.is_some() } else { e.dr.is_some() }) {
             return;
         }
@@ -1147,7 +1503,61 @@ impl Gen<'_> {
             for t in ["i", "t", "b"] {
                 let vals = gen_vals(&mut self.r, &sh);
                 self.emit(format!("SV {} {} @{} {}", e.id, e.desc, t, cells_str(&vals)));
-                self.emit(format!("DV {} {} @{} -", e.id, e.desc, t));
+                if e.dv.is_some() {
+                    self.emit(format!("DV {} {} @{} -", e.id, e.desc, t));
+                }
+            }
+        }
+    }
+
+    /// kind NV: every order of the outer fields x every order of the inner fields x flag sets
+    fn nested(&mut self, reps: usize) {
+        let inner_perms: Vec<String> = permutations(&['0', '1', '2']).into_iter().map(|p| p.into_iter().collect()).collect();
+        for (id, nouter, ordered) in [("N01", 3usize, false), ("N02", 2, false), ("N03", 2, false), ("N04", 2, true), ("NR1", 2, false)] {
+            let digits: Vec<char> = (0..nouter).map(|i| char::from_digit(i as u32, 10).unwrap()).collect();
+            let outer_perms: Vec<String> = if ordered {
+                vec![digits.iter().collect()]
+            } else {
+                permutations(&digits).into_iter().map(|p| p.into_iter().collect()).collect()
+            };
+            for op in &outer_perms {
+                for ip in &inner_perms {
+                    for fl in ["-", "m", "f", "mf", "e", "ef", "E", "Em"] {
+                        // rows tolerate no extra column, the ordered parent only a trailing one
+                        if (id == "NR1" && (fl.contains('e') || fl.contains('E'))) || (ordered && fl.contains('e')) {
+                            continue;
+                        }
+                        for _ in 0..reps {
+                            let mut one = |g: &mut Self| -> Vec<Cell> {
+                                let z = if fl.contains('m') { None } else { gen_val(&mut g.r, 'I') };
+                                vec![gen_val(&mut g.r, 'i'), gen_val(&mut g.r, 'T'), z]
+                            };
+                            let mut vals: Vec<Cell> = vec![gen_val(&mut self.r, 'i')];
+                            match id {
+                                "N02" => {
+                                    if self.r.chance(1, 4) {
+                                        vals.push(None);
+                                    } else {
+                                        vals.push(Some(vec![]));
+                                        vals.extend(one(self));
+                                    }
+                                }
+                                "N03" => {
+                                    let n = self.r.below(3) as u8;
+                                    vals.push(Some(vec![n]));
+                                    for _ in 0..n {
+                                        vals.extend(one(self));
+                                    }
+                                }
+                                _ => vals.extend(one(self)),
+                            }
+                            if id == "N01" {
+                                vals.push(gen_val(&mut self.r, 't'));
+                            }
+                            self.emit(format!("NV {} {} {} {} {}", id, op, ip, fl, cells_str(&vals)));
+                        }
+                    }
+                }
             }
         }
     }
@@ -1167,11 +1577,7 @@ impl Gen<'_> {
         }
         let extras = if valid { 0 } else { match self.r.below(6) { 0 => 2, 1 | 2 => 1, _ => 0 } };
         for _ in 0..extras {
-            let n = if self.r.chance(1, 4) && !sh.idents.is_empty() {
-                self.r.pick(&sh.idents).clone()
-            } else {
-                self.r.pick(&["zz", "yy", "a0", "A", "aa"]).to_string()
-            };
+            let n = self.extra_name(&sh, &db);
             if !db.iter().any(|(m, _)| *m == n) || self.r.chance(1, 3) {
                 db.push((n, self.r.pick(&["i", "t", "b"]).to_string()));
             }
@@ -1220,5 +1626,6 @@ fn main() {
         let e = &reg[(i % reg.len() as u64) as usize];
         g.random(e);
     }
+    g.nested(if thorough { 40 } else { 6 });
     g.out.finish();
 }
